@@ -14,7 +14,7 @@ BOUNDS = ("The instruction helpers are NOT stubbed here. Unit.get_human_readable
           "Container constructor (liquid+solid+enzyme, with and without capacity), Container.transfer from a source "
           "with liquid and from a solids/enzyme-only source (uL, mg, umol, U), dilute, fill_to, create_solution (pure "
           "and container solvent), create_solution_from, and the baked recipe steps create_container, transfer, "
-          "create_solution, create_solution_from, remove, dilute, fill_to (container). Every displayed number is "
+          "create_solution, create_solution_from, remove, dilute, fill_to (container), the last two also as the second step after a transfer into the same container. Every displayed number is "
           "carried through the text as a tag and compared with the contents delta: |displayed * prefix - true amount| "
           "<= 0.5*10^-digits * prefix. Quantities symbolic over [1e-9, 1e3] base units so every branch of the "
           "rescaling loops is reached (loop bound 3, checked by the path limit). Lite model + output rounding.")
@@ -39,7 +39,8 @@ def cells(tier, seed):
     texts = ['ctor/capacity', 'ctor/nocap', 'transfer/liquid/uL', 'transfer/liquid/mg', 'transfer/solids/mg',
              'transfer/solids/umol', 'transfer/solids/U', 'dilute', 'fill_to/mL', 'fill_to/g', 'create_solution/pure',
              'create_solution/container', 'create_solution_from', 'recipe/create_container', 'recipe/transfer',
-             'recipe/solution', 'recipe/solution_from', 'recipe/remove', 'recipe/dilute', 'recipe/fill_to']
+             'recipe/solution', 'recipe/solution_from', 'recipe/remove', 'recipe/dilute', 'recipe/fill_to',
+             'recipe/fill_to2', 'recipe/dilute2']
     if tier == 'thorough':
         texts += ['transfer/liquid/umol', 'transfer/liquid/U', 'fill_to/mmol', 'plate/transfer']
     for t in texts:
@@ -107,6 +108,13 @@ def h_std(h):
     h.require('standard_format:unit-kind', h.true(base == want_base), detail=f"{what}: reported in {unit}")
     h.require('standard_format:same-amount', h.eq(got * PREFIX[prefix], truth, h.rs(h.ulp * PREFIX[prefix])),
               detail=f"{what}: ({got}, {unit}) does not denote the stored quantity")
+
+
+def lift_equal(a, b):
+    from ..symx import lift
+    if getattr(a, 'f', None) is not None or getattr(b, 'f', None) is not None:
+        return lift(a) == lift(b)
+    return a == b
 
 
 def _line(text, which=-1):
@@ -299,6 +307,33 @@ def _text(h, t, env, C, Plate, Recipe, lib, water, salt, lip, dmso):
             if m:
                 added = lib.amount(water, res['A'].contents[water] - A.contents[water], 'L')
                 displayed_ok(h, 'text:step-amount', num(h, m.group(2)), m.group(3), added, detail=rec.steps[0].instructions)
+        elif kind in ('fill_to2', 'dilute2'):
+            # the step under test comes second: an earlier transfer already put solvent (and salt) into B
+            rec.uses(A, B)
+            quantity = f"{q} uL"
+            h.assume(h.lt(q * PREFIX['u'], lib.total(A.contents, 'L')))
+            rec.transfer(A, B, quantity)
+            _, B1 = C.transfer(A, B, quantity)          # the state of B when the second step runs
+            if kind == 'fill_to2':
+                T = h.real('T', Fr(1, 10**3), 10**7)
+                h.assume(h.gt(T * PREFIX['u'], lib.total(B1.contents, 'L')))
+                rec.fill_to(B, water, f"{T} uL")
+                res = rec.bake()
+                m = re.match(r"^Fill 'B' with 'water' up to " + NUM + r" uL by adding " + NUM + r" (\S+)\.$",
+                             rec.steps[1].instructions)
+            else:
+                ct = h.real('ct', Fr(1, 10**6), 10)
+                rec.dilute(B, salt, f"{ct} M", water)
+                res = rec.bake()
+                if lift_equal(res['B'].contents[water], B1.contents[water]):
+                    return
+                m = re.match(r"^Dilute 'NaCl' in 'B' to " + NUM + r" M by adding " + NUM + r" (\S+) of 'water'\.$",
+                             rec.steps[1].instructions)
+            h.require('text:step', h.true(m is not None), detail=rec.steps[1].instructions)
+            if m:
+                added = lib.amount(water, res['B'].contents[water] - B1.contents[water], 'L')
+                displayed_ok(h, 'text:step-amount', num(h, m.group(2)), m.group(3), added, region='after-earlier-step',
+                             detail=rec.steps[1].instructions + ' (the container already held solvent from an earlier step)')
         elif kind == 'fill_to':
             rec.uses(A)
             T = h.real('T', Fr(1, 10**3), 10**7)
